@@ -22,6 +22,8 @@ import (
 type opDesc struct {
 	Kind string `json:"k"`
 	Key  string `json:"key,omitempty"`
+	// Size, if non-zero, is the length of the value a set writes.
+	Size int `json:"size,omitempty"`
 }
 
 func (o opDesc) String() string {
@@ -33,7 +35,8 @@ func (o opDesc) String() string {
 }
 
 var alphabet = []opDesc{
-	{"set", "k1"}, {"get", "k1"}, {"del", "k1"}, {"clear", ""}, {"stats", ""}, {"set", "k2"}, {"get", "k2"}, {"set", "k3"},
+	{Kind: "set", Key: "k1"}, {Kind: "get", Key: "k1"}, {Kind: "del", Key: "k1"}, {Kind: "clear"}, {Kind: "stats"},
+	{Kind: "set", Key: "k2"}, {Kind: "get", Key: "k2"}, {Kind: "set", Key: "k3"},
 }
 
 type confDesc struct {
@@ -88,12 +91,12 @@ func (s *scenario) Exec(run func(threads ...func()) *verifsched.Exec) (out e3.Ou
 			if s.Conf.OnDelete == 2 {
 				// A re-entrant callback: it reads another key and the stats.
 				// Both calls are part of the history of the calling thread.
-				e := event{thread: verifsched.ThreadID(), op: opDesc{"get", "k2"}}
+				e := event{thread: verifsched.ThreadID(), op: opDesc{Kind: "get", Key: "k2"}}
 				e.inv = verifsched.Step()
 				e.res = string(c.Get([]byte("k2")))
 				e.ret = verifsched.Step()
 				events = append(events, e)
-				e = event{thread: verifsched.ThreadID(), op: opDesc{"stats", ""}}
+				e = event{thread: verifsched.ThreadID(), op: opDesc{Kind: "stats", Key: ""}}
 				e.inv = verifsched.Step()
 				e.st = c.Stats()
 				e.ret = verifsched.Step()
@@ -118,7 +121,7 @@ func (s *scenario) Exec(run func(threads ...func()) *verifsched.Exec) (out e3.Ou
 		v := "i" + k[1:]
 		write(k, v)
 		r := c.Set([]byte(k), []byte(v))
-		events = append(events, event{thread: -1, op: opDesc{"set", k}, val: v, res: fmt.Sprint(r), inv: -2, ret: -1})
+		events = append(events, event{thread: -1, op: opDesc{Kind: "set", Key: k}, val: v, res: fmt.Sprint(r), inv: -2, ret: -1})
 	}
 
 	var threads []func()
@@ -130,6 +133,9 @@ func (s *scenario) Exec(run func(threads ...func()) *verifsched.Exec) (out e3.Ou
 				switch o.Kind {
 				case "set":
 					e.val = fmt.Sprintf("v%d%d", ti, oi)
+					if o.Size > len(e.val) {
+						e.val += strings.Repeat("x", o.Size-len(e.val))
+					}
 					write(o.Key, e.val)
 					e.res = fmt.Sprint(c.Set([]byte(o.Key), []byte(e.val)))
 				case "get":
@@ -182,9 +188,26 @@ func (s *scenario) Exec(run func(threads ...func()) *verifsched.Exec) (out e3.Ou
 	const far = int64(1) << 40
 	live := map[string]string{}
 	keys := []string{"k1", "k2", "k3"}
+	seenKey := map[string]bool{"k1": true, "k2": true, "k3": true}
+	for _, k := range s.Init {
+		if !seenKey[k] {
+			seenKey[k] = true
+			keys = append(keys, k)
+		}
+	}
+
+	for _, prog := range s.Progs {
+		for _, o := range prog {
+			if o.Key != "" && !seenKey[o.Key] {
+				seenKey[o.Key] = true
+				keys = append(keys, o.Key)
+			}
+		}
+	}
+
 	for i, k := range keys {
 		v := string(c.Get([]byte(k)))
-		events = append(events, event{thread: 99, op: opDesc{"get", k}, res: v, inv: far + int64(2*i), ret: far + int64(2*i) + 1})
+		events = append(events, event{thread: 99, op: opDesc{Kind: "get", Key: k}, res: v, inv: far + int64(2*i), ret: far + int64(2*i) + 1})
 		if v != "" {
 			live[k] = v
 		}
@@ -495,6 +518,23 @@ func main() {
 						items = append(items, item{&scenario{Conf: cf, Init: in, Progs: [][]opDesc{a, b, d}}, bounded})
 					}
 				}
+			}
+		}
+
+		// One Set that evicts dozens of entries (past any fixed-size batch of
+		// callbacks), with another thread changing the cache meanwhile.
+		for _, n := range []int{31, 32, 33, 40, 64, 65} {
+			var init []string
+			for i := 0; i < n; i++ {
+				init = append(init, fmt.Sprintf("e%02d", i))
+			}
+
+			// Every initial entry takes len("eNN") + len("iNN") = 6 bytes.
+			cf := confDesc{LRU: true, MaxSize: uint(6 * n), OnDelete: 1}
+			big := opDesc{Kind: "set", Key: "big", Size: 6*n - 9}
+			for _, other := range []opDesc{{Kind: "del", Key: init[n-1]}, {Kind: "set", Key: init[n-1]}, {Kind: "set", Key: "k1"}, {Kind: "clear"}, {Kind: "stats"}} {
+				items = append(items, item{&scenario{Conf: cf, Init: init, Progs: [][]opDesc{{big}, {other}}},
+					e3.Limits{Exhaust: true, MaxBound: 2, MaxExecs: runlib.Pick(c, int64(5_000), int64(200_000))}})
 			}
 		}
 
